@@ -156,6 +156,33 @@ pub fn run(seed: u64, count: usize, thorough: bool, out: &mut Out) {
         }
         emit(out, t.as_bytes(), rng.below(8), rng.below(3), "run:models");
     }
+    // 5. SEQRES records that disagree with the residues found, in a later row of a chain and in a later chain: the
+    //    diagnostic has to quote the row at its own line number
+    {
+        let atom = |k: usize, chain: char, name: &str| format!("ATOM  {:5}  CA  {name} {chain}{:4}    {:8.3}{:8.3}{:8.3}{:6.2}{:6.2}           C  \n", k + 1, k, k as f64, 2.0, 3.0, 1.0, 10.0);
+        for (lead, second_row, two_chains) in [(0usize, true, false), (2, true, false), (1, false, true), (3, true, true)] {
+            let mut t = String::new();
+            for _ in 0..lead {
+                t.push_str("REMARK   2 X\n");
+            }
+            t.push_str(&format!("SEQRES   1 A   14  {}\n", ["GLY"; 13].join(" ")));
+            t.push_str(if second_row { "SEQRES   2 A   14  ALA\n" } else { "SEQRES   2 A   14  GLY\n" });
+            if two_chains {
+                t.push_str("SEQRES   1 B    2  SER SER\n");
+            }
+            for k in 0..14 {
+                t.push_str(&atom(k, 'A', "GLY"));
+            }
+            if two_chains {
+                t.push_str(&atom(0, 'B', "SER"));
+                t.push_str(&atom(1, 'B', "VAL"));
+            }
+            t.push_str("END\n");
+            for level in 0..3 {
+                emit(out, t.as_bytes(), 0, level, "seqres-mismatch");
+            }
+        }
+    }
     for e in edge {
         for level in 0..3 {
             emit(out, &e, 0, level, "edge");
